@@ -710,7 +710,10 @@ mod ordering {
         shared.center.store(MARKER_SPIN as i64, Ordering::Relaxed);
         let allowed = allowed_cpus();
         let cpus = if allowed.len() >= 2 {
-            let first = std::process::id() as usize % allowed.len();
+            // two hunts run at the same time (worker 0 and the lead worker of the second build):
+            // they must not be pinned to the same pair of processors (each child spins on both)
+            let lead2 = std::env::var("VERIF_PLAIN_LEAD").is_ok() as usize;
+            let first = (lead2 * (allowed.len() / 4).max(1)) % allowed.len();
             let second = (first + allowed.len() / 2) % allowed.len();
             Some((allowed[first], allowed[second]))
         } else {
